@@ -469,7 +469,7 @@ def check(ctx):
     ctx.trusted = ["rustc ownership/borrow checking of all safe code", "ptr::read/write/copy, MaybeUninit, ManuallyDrop semantics",
                    "core iterators: for_each / fold / from_iter run to exhaustion; Zip stores min(len) items"]
     ctx.assumptions = ["panic-free histories (panics are C04/C05)", "the claim is ownership-linearity of every operation w.r.t. the interpreted primitives, not an observation of destructor calls"]
-    cfgs = ["F0", "F1"] if ctx.tier == "quick" else ["F0", "F1", "F2"]
+    cfgs = ["F0", "F1", "F1N"] if ctx.tier == "quick" else ["F0", "F1", "F1N", "F2", "F0N", "F2N"]
     ctx.need(*cfgs)
     for cfg in cfgs:
         verify_models(ctx, cfg)
